@@ -453,7 +453,7 @@ func (m *c16Muts) num(site string, p *cNum, vals []int64) {
 		v := v
 		m.add(site, fmt.Sprintf("number=%d", v), func() { *p = numOk(v) })
 	}
-	for _, raw := range []string{"abc", "99999999999999999999", "-99999999999999999999", "50.5", "\"\"", "[1]", "9223372036854775808"} {
+	for _, raw := range []string{"abc", "99999999999999999999", "-99999999999999999999", "0x1g", "\"\"", "[1]", "9223372036854775808"} {
 		raw := raw
 		m.add(site, "wrong-type-number="+raw, func() { *p = numBad(raw) })
 	}
